@@ -295,6 +295,8 @@ def c04(run, params, events, pr=None, pq=None):
             viol.append((f"{ALIGN}::monitor::C04::{b}", mech, dict(where=where, query=row.queryId, reference=row.referenceId,
                                                                   confidence=row.confidence, recomputed=total)))
     for row in (run.rows or []):
+        if getattr(row, 'alignedRest', False):
+            continue          # a second-pass row that won in mode 'best': judged below as a candidate, together with the fragment its label numbers refer to
         judge(row, 'returned_row')
     for qid, cands in run.candidates.items():
         for row, q, r, corr in cands:
